@@ -8,7 +8,7 @@
      code 1  the recorded trace violates the property's monitor (failing input)
      code 2  it satisfies the monitor but differs from the model's trace for the same schedule
      code 0  otherwise; also for traces outside the property's domain (lb went negative)      *)
-From Coq Require Import List Arith ZArith Bool.
+From Coq Require Import List Arith ZArith Bool Uint63.
 From GT Require Import Base.Verdict.
 From GT Require Import Base.Conc.
 From GT Require Import WGModel WGSpec.
@@ -25,6 +25,106 @@ Record wg_case := WGCase {
 (* compact constructor used by the generated case files *)
 Definition ti (tid : nat) (e : ev) (count : Z) (cl : list nat) (site : nat) : witem :=
   Item tid e (count, cl) site.
+
+(* ---------------------------------------------------------------- packed cases
+   The harness writes a case as a list of primitive 63-bit integers, each holding five 12-bit
+   fields (elaborating such literals is an order of magnitude cheaper than elaborating the
+   constructor form).  Field stream (signed values are offset by 2048):
+     nthreads, per thread: ncalls, per call: kind (0 add, 1 wait), delta;
+     tmo, nsteps, per step: tid, event (0 call, 1 ret, 2 tau, 3 stutter, 4 ret-panic),
+     call kind, call delta, value, Count(), site, nclosed, closed...
+   [decode_case] is part of the judge (no theorem is about it); it is exercised by every
+   corpus entry: a wrong decoding shows up as a difference from the model.                    *)
+(* 12 bits of a primitive integer as a binary number (no unary numbers above a few hundred) *)
+Fixpoint bits_N (k : nat) (i : int) : N :=
+  match k with
+  | O => 0%N
+  | S k' => ((if Uint63.is_even i then 0 else 1) + 2 * bits_N k' (Uint63.lsr i 1%uint63))%N
+  end.
+Definition field_at (i : int) (k : int) : N := bits_N 12 (Uint63.lsr i k).
+Definition fields_of (i : int) : list N :=
+  [field_at i 0%uint63; field_at i 12%uint63; field_at i 24%uint63; field_at i 36%uint63;
+   field_at i 48%uint63].
+
+Definition unpack (l : list int) : list N := flat_map fields_of l.
+
+Definition sgn (n : N) : Z := Z.of_N n - 2048.
+Definition nn (n : N) : nat := N.to_nat n.
+
+Definition dec_call (k d : N) : call := match k with 0%N => CAdd (sgn d) | _ => CWait end.
+
+Fixpoint dec_calls (n : nat) (l : list N) : option (list call * list N) :=
+  match n with
+  | O => Some ([], l)
+  | S n' =>
+      match l with
+      | k :: d :: r =>
+          match dec_calls n' r with
+          | Some (cs, r') => Some (dec_call k d :: cs, r')
+          | None => None
+          end
+      | _ => None
+      end
+  end.
+
+Fixpoint dec_progs (n : nat) (l : list N) : option (list (list call) * list N) :=
+  match n with
+  | O => Some ([], l)
+  | S n' =>
+      match l with
+      | nc :: r =>
+          match dec_calls (nn nc) r with
+          | Some (cs, r') =>
+              match dec_progs n' r' with
+              | Some (ps, r'') => Some (cs :: ps, r'')
+              | None => None
+              end
+          | None => None
+          end
+      | [] => None
+      end
+  end.
+
+Fixpoint take_n (n : nat) (l : list N) : option (list nat * list N) :=
+  match n with
+  | O => Some ([], l)
+  | S n' => match l with
+            | x :: r => match take_n n' r with
+                        | Some (a, b) => Some (nn x :: a, b)
+                        | None => None
+                        end
+            | [] => None
+            end
+  end.
+
+Definition dec_ev (e k d v : N) : option ev :=
+  match e with
+  | 0%N => Some (ECall (dec_call k d))
+  | 1%N => Some (ERet (dec_call k d)
+                      (match k with 0%N => RInt (sgn v) | _ => RChan (Z.to_nat (sgn v)) end))
+  | 2%N => Some ETau
+  | 3%N => Some EStutter
+  | 4%N => Some (ERet (dec_call k d) RPanic)
+  | _ => None
+  end.
+
+Fixpoint dec_steps (n : nat) (l : list N) : option (list witem) :=
+  match n with
+  | O => Some []
+  | S n' =>
+      match l with
+      | tid :: e :: k :: d :: v :: cnt :: site :: ncl :: r =>
+          match dec_ev e k d v, take_n (nn ncl) r with
+          | Some e', Some (cl, r') =>
+              match dec_steps n' r' with
+              | Some its => Some (Item (nn tid) e' (sgn cnt, cl) (nn site) :: its)
+              | None => None
+              end
+          | _, _ => None
+          end
+      | _ => None
+      end
+  end.
 
 (* ---------------------------------------------------------------- canonical channel names *)
 Fixpoint lookup (x : nat) (m : list (nat * nat)) : option nat :=
@@ -102,6 +202,20 @@ Fixpoint first_diff (n : nat) (a b : list witem) : option nat :=
   | _, _ => Some n
   end.
 
+Definition decode_case (l : list int) : option wg_case :=
+  match unpack l with
+  | nt :: r =>
+      match dec_progs (nn nt) r with
+      | Some (ps, tmo :: ns :: r') =>
+          match dec_steps (nn ns) r' with
+          | Some its => Some (WGCase ps (map (fun it => it_tid it) its) its (nn tmo))
+          | None => None
+          end
+      | _ => None
+      end
+  | [] => None
+  end.
+
 (* ---------------------------------------------------------------- the judges *)
 Definition obs_trace (c : wg_case) : trace := rev (wc_obs c).
 
@@ -129,11 +243,19 @@ Definition tmo_model (c : wg_case) : bool :=
   end.
 
 Definition in_domain (c : wg_case) : bool := well_behaved (obs_trace c).
+(* a recorded trace that does not respect the per-thread call discipline cannot come from a
+   correct harness run: it is reported as a correspondence failure (code 2).  For well-formed
+   traces c01_ok is exactly c01_spec (WGSpecProofs.c01_ok_iff_spec). *)
+Definition obs_wf (c : wg_case) : bool := trace_wf (obs_trace c).
 
 Definition c01_judge (c : wg_case) : nat :=
-  if in_domain c then verdict (c01_ok (obs_trace c)) (model_eq c) else 0%nat.
+  if in_domain c then
+    if obs_wf c then verdict (c01_ok (obs_trace c)) (model_eq c) else 2%nat
+  else 0%nat.
 Definition c02_judge (c : wg_case) : nat :=
-  if in_domain c then verdict (c02_ok (obs_trace c) && tmo_ok c) (model_eq c && tmo_model c)
+  if in_domain c then
+    if obs_wf c then verdict (c02_ok (obs_trace c) && tmo_ok c) (model_eq c && tmo_model c)
+    else 2%nat
   else 0%nat.
 
 (* the same against the model of the pinned two-word algorithm (development aid: shows that
@@ -169,3 +291,13 @@ Fixpoint interleaves (cur : option nat) (open : list nat) (items : list witem) :
       end
   end.
 Definition wg_nontrivial (c : wg_case) : bool := interleaves None [] (wc_obs c).
+
+(* judges on packed cases: verdict + 3 * (disagreement of the two C01 formulations); 9 = the
+   words do not decode *)
+Definition enc_judge (j : wg_case -> nat) (l : list int) : nat :=
+  match decode_case l with
+  | Some c => j c + 3 * mon_agree c
+  | None => 9%nat
+  end.
+Definition enc_nontrivial (l : list int) : bool :=
+  match decode_case l with Some c => wg_nontrivial c | None => false end.
